@@ -1,10 +1,14 @@
 package zsim
 
 import (
+	"bytes"
 	"fmt"
+	"io"
 	"os"
 	"path/filepath"
 	"strings"
+
+	"github.com/golang/snappy"
 	"time"
 )
 
@@ -65,6 +69,11 @@ func genC03(seed uint64, tier string) *Plan {
 		}
 		if r.Bool(fp) {
 			p.Ops = append(p.Ops, Op{K: PickOne(r, []string{"flushA", "flushB", "flushB"}), Dt: PickOne(r, insDts)})
+		}
+		if r.Bool(0.04) {
+			// a flush whose first attempt cannot read the existing file to the
+			// end (transient read error) and is retried
+			p.Ops = append(p.Ops, Op{K: "flushRetry", S: PickOne(r, []string{"A", "B"}), Dt: PickOne(r, insDts)})
 		}
 		if r.Bool(0.12) {
 			p.Ops = append(p.Ops, Op{K: "adv", Dt: PickOne(r, advDts)})
@@ -201,6 +210,10 @@ func execC03(e *Env, p *Plan) error {
 		case "flushB":
 			b.DB.FlushAll()
 			e.Count("op.flush")
+		case "flushRetry":
+			n := map[string]*Node{"A": a, "B": b}[op.S]
+			e.Settle()
+			flushWithTransientReadError(e, n)
 		case "adv":
 			e.Count("op.adv")
 		case "restartA":
@@ -257,38 +270,88 @@ func systemMemoryBytes() float64 {
 	return 16 << 30
 }
 
-// shiftBelowResolution: the rows differ in a field that is defined as
-// SHIFT(.., d) with 0 < |d| < the table's resolution.
+// shiftBelowResolution: the query reads a table that has a field defined as
+// SHIFT(.., d) with 0 < |d| < the table's resolution, and the query names that
+// field or selects everything (the finding shows as a differing value, or as
+// a row that exists on one side only).
 func shiftBelowResolution(tables []TableDef, sql, diff string) bool {
-	i := strings.Index(diff, "row differs in ")
-	if i < 0 {
-		return false
-	}
-	name := diff[i+len("row differs in "):]
-	if j := strings.Index(name, ":"); j >= 0 {
-		name = name[:j]
-	}
-	// (CROSSTAB prefixes field names with "<value>_")
-	if j := strings.LastIndex(name, "_"); j >= 0 {
-		name = name[j+1:]
-	}
 	for ti := range tables {
 		t := &tables[ti]
 		if !strings.Contains(sql, " "+t.Name) {
 			continue
 		}
-		f := t.field(name)
-		if f == nil || f.E.Kind != "raw" || !strings.HasPrefix(f.E.Raw, "SHIFT(") {
-			continue
-		}
-		k := strings.LastIndex(f.E.Raw, "'-")
-		if k < 0 {
-			continue
-		}
-		d, err := time.ParseDuration(strings.TrimSuffix(f.E.Raw[k+2:], "')"))
-		if err == nil && d > 0 && int64(d) < t.ResNanos {
-			return true
+		for fi := range t.Fields {
+			f := &t.Fields[fi]
+			if f.E.Kind != "raw" || !strings.HasPrefix(f.E.Raw, "SHIFT(") {
+				continue
+			}
+			k := strings.LastIndex(f.E.Raw, "'-")
+			if k < 0 {
+				continue
+			}
+			d, err := time.ParseDuration(strings.TrimSuffix(f.E.Raw[k+2:], "')"))
+			if err != nil || d <= 0 || int64(d) >= t.ResNanos {
+				continue
+			}
+			if strings.Contains(sql, f.Name) || strings.Contains(sql, "*") {
+				return true
+			}
 		}
 	}
 	return false
+}
+
+// flushWithTransientReadError forces a flush of the node's tables during
+// which the first attempt finds every current filestore file cut in half (a
+// short read); the file is whole again for the retry.
+func flushWithTransientReadError(e *Env, n *Node) {
+	saved := map[string][]byte{}
+	attempts := map[string]int{}
+	e.mu.Lock()
+	e.OnPoint = func(nn *Node, site, tbl string) {
+		if nn != n || site != "flush.begin" {
+			return
+		}
+		attempts[tbl]++
+		file, _, _ := n.DB.SimStorageShape(tbl)
+		switch attempts[tbl] {
+		case 1:
+			if b, err := os.ReadFile(file); err == nil && len(b) > 64 {
+				// the file's content ends after two thirds of its (uncompressed)
+				// bytes: the rows before that point are read and merged, then
+				// the read fails
+				if all, rerr := io.ReadAll(snappy.NewReader(bytes.NewReader(b))); rerr == nil && len(all) > 96 {
+					var buf bytes.Buffer
+					w := snappy.NewBufferedWriter(&buf)
+					w.Write(all[:len(all)*2/3])
+					w.Close()
+					saved[tbl] = b
+					os.WriteFile(file, buf.Bytes(), 0644)
+					e.Count("fault.flush.short-read")
+				}
+			}
+		case 2:
+			// (real attempts are some time apart; zenodb derives the identity
+			// of a file scan from the wall clock, which stands still inside the
+			// bubble unless somebody sleeps)
+			time.Sleep(time.Microsecond)
+			if b, ok := saved[tbl]; ok {
+				os.WriteFile(file, b, 0644)
+				delete(saved, tbl)
+				e.Count("probe.flush-retried")
+			}
+		}
+	}
+	e.mu.Unlock()
+	n.DB.FlushAll()
+	e.mu.Lock()
+	e.OnPoint = nil
+	e.mu.Unlock()
+	// (a table that did not retry - nothing to flush - gets its file back)
+	for tbl, b := range saved {
+		if file, _, _ := n.DB.SimStorageShape(tbl); file != "" {
+			os.WriteFile(file, b, 0644)
+		}
+	}
+	e.Sleep(time.Millisecond)
 }
